@@ -230,17 +230,21 @@ class Driver:
         if live:
             sid = rng.choice(live) if plan.interleave else live[0]
             f = plan.faults
-            if not plan.interleave and not f.get("obs") and not f.get("fin"):
+            if not plan.interleave and not f.get("obs") and not f.get("fin") \
+                    and not f.get("badfin"):
                 return ["drain", sid]
             if f:
                 u = rng.random()
                 acc = 0.0
-                for name in ("obs", "fin"):
+                for name in ("obs", "fin", "badfin"):
                     acc += f.get(name, 0)
                     if u < acc:
                         self.nfaults += 1
                         if name == "obs":
                             return self._obs(sid)
+                        if name == "badfin":
+                            return ["fin", sid,
+                                    self.draw_bad_k(w.slots[sid])]
                         return ["fin", sid, self.draw_k(w.slots[sid])]
             return ["next", sid]
         # nothing wants a step: wrap up concluded slots
@@ -278,6 +282,16 @@ class Driver:
                 self.queue.append(self._obs(sid))
         if f.get("fin_before") and self.rng.random() < f["fin_before"]:
             self.queue.append(["fin", sid, self.rng.choice((1, 2, 0, -1))])
+
+    def draw_bad_k(self, s):
+        """An argument that finalize() must reject in the slot's present
+        state (DESIGN 5.5): below 1, beyond what the forward was told, or
+        different from a max_n that is already known."""
+        if s.finalized or not is_online(s.cls):
+            pool = [-1, 0, s.N + 1, s.N + 7]
+        else:
+            pool = [-1, 0, s.told + 1, s.told + 5]
+        return self.rng.choice(pool)
 
     def draw_k(self, s):
         N, told = s.N, s.told
